@@ -88,7 +88,9 @@ EXEMPT = {
 
 
 def run(world, rep, tier, only=None):
-    prog = world.program("e2fsck")
+    # the gating analysis classifies helpers by what they return ("answer functions"), so it looks at
+    # the functions as written, not with anonymous helpers absorbed into their callers
+    prog = world.program("e2fsck", plain=True)
     G = gating.Gating(prog, mode_bits=tuple(MODE_BITS), reviewed_answer_fns=tuple(REVIEWED_ANSWER_FNS))
     for nm in REVIEWED_ANSWER_FNS:
         if not prog.has_fn(nm):
